@@ -4,7 +4,7 @@ CONSTANT MaxWidth = 2
 CONSTANT AtomSel = "mixed"
 CONSTANT Alphabet = {0, 8, 9, 10, 11, 12, 13, 27, 31, 34, 47, 48, 92, 117, 127, 133, 159, 160, 233, 8232, 65279, 65535, 65536, 128512, 128513, 1114111}
 CONSTANT MaxStr = 2
-CONSTANT AlphabetLong = {0, 9, 10, 27, 34, 48, 92, 117, 127, 133, 233, 128512}
+CONSTANT AlphabetLong = {27, 34, 92, 10, 48, 117, 128512, 0}
 CONSTANT MaxStrLong = 3
 INIT Init
 NEXT Next
